@@ -321,7 +321,6 @@ fn judge_inner(g: &G, case: &Case, prop: &str) -> Judged {
             for vt in variants {
                 let mut c = base.clone();
                 c.tokens = vt;
-                c.tokens.truncate(160);
                 let (e, s) = count_noise(meta, &c.tokens);
                 j.noise_injected.0 += e;
                 j.noise_injected.1 += s;
